@@ -274,7 +274,11 @@ def _fr(x):
     return val(float(x))
 
 
-def _kernels(chk):
+def _kernels(chk, only=None):
+    def obl(name, *a, **k):
+        # `only`: register a single obligation of this group (used by C10, which shares the fixed-step driver)
+        if only is None or only in name:
+            return chk.obl(name, *a, **k)
     import hiten.algorithms.integrators.rk as rk
     dim = 2
     t, h = sp.symbols("t h", real=True)
@@ -307,7 +311,7 @@ def _kernels(chk):
                     require_identity(red, a, b)
         return th
     for o in (4, 6, 8):
-        chk.obl(f"rk_embedded_step_jit_kernel applies the order-{o} tableau: k_i=f(t+c_i h, y+h sum a_ij k_j), "
+        obl(f"rk_embedded_step_jit_kernel applies the order-{o} tableau: k_i=f(t+c_i h, y+h sum a_ij k_j), "
                 f"y_new=y+h sum b_i k_i", "K1 identity", [RK + ":rk_embedded_step_jit_kernel"],
                 "B3 sympy normal form", fixed(o),
                 sample="stage arguments recorded from the real kernel == Butcher formula on the instance's arrays")
@@ -331,7 +335,7 @@ def _kernels(chk):
                 for j in range(7):
                     require_identity(red, val(k[j][d]), f.calls[j][2][d], key_prefix="RK45: returned stage matrix")
             require_identity(red, f.calls[6][0], t + h, key_prefix="RK45: FSAL stage time")
-    chk.obl("rk45_step_jit_kernel: stages, y_high, FSAL stage f(t+h,y_high), err_vec=h*E.k, y_low=y_high-err",
+    obl("rk45_step_jit_kernel: stages, y_high, FSAL stage f(t+h,y_high), err_vec=h*E.k, y_low=y_high-err",
             "K1 identity", [RK + ":rk45_step_jit_kernel"], "B3 sympy normal form", th_rk45)
 
     def th_dop():
@@ -362,7 +366,7 @@ def _kernels(chk):
                 den = alg.sqrt(a5 ** 2 + (a3 / 10) ** 2)
                 require_identity(red, val(err[d]) * den, w5 * a5, key_prefix=f"DOP853: err_vec[{d}]")
                 require_identity(red, val(yl[d]), val(yh[d]) - val(err[d]), key_prefix=f"DOP853: y_low[{d}]")
-    chk.obl("dop853_step_jit_kernel: stages, y_high, FSAL, err5=h*E5.k, err3=h*E3.k, err=err5*|err5|/hypot(err5,0.1 err3)",
+    obl("dop853_step_jit_kernel: stages, y_high, FSAL, err5=h*E5.k, err3=h*E3.k, err=err5*|err5|/hypot(err5,0.1 err3)",
             "K1 identity", [RK + ":dop853_step_jit_kernel"], "B3 sympy normal form", th_dop)
 
     # ---- fixed-step driver -----------------------------------------------------------
@@ -399,7 +403,7 @@ def _kernels(chk):
                 require_identity(red, td, ts[n + 1], key_prefix=f"derivative time at node {n + 1}")
                 idx += 5
                 cur = new
-    chk.obl("_integrate_fixed_rk: states[0]==y0, states[n+1]==step(states[n], t_n, t_{n+1}-t_n) on the requested grid",
+    obl("_integrate_fixed_rk: states[0]==y0, states[n+1]==step(states[n], t_n, t_{n+1}-t_n) on the requested grid",
             "K1 identity (3 steps, symbolic grid)", [RK + ":_FixedStepRK._integrate_fixed_rk",
                                                      RK + ":rk_embedded_step_jit_kernel"], "B3 sympy normal form",
             th_driver)
@@ -430,7 +434,7 @@ def _kernels(chk):
             raise Refuted("tableau-not-forwarded", "integrate did not pass the instance's own tableau")
         if not (_np.array_equal(seen["t"], tv) and _np.array_equal(sol.times, tv)):
             raise Refuted("grid-not-forwarded", f"{seen['t']} / {sol.times}")
-    chk.obl("_FixedStepRK.integrate passes its own (A,B,C) and the caller's grid; times == t_vals", "K2 wiring",
+    obl("_FixedStepRK.integrate passes its own (A,B,C) and the caller's grid; times == t_vals", "K2 wiring",
             [RK + ":_FixedStepRK.integrate"], "B4 exact evaluation", th_integrate_wiring)
 
 
